@@ -323,6 +323,19 @@ def gen_repetitive_workspace(rng):
             "series": series, "patches": patches}
 
 
+def add_load_error(rng, w):
+    """one more patch somewhere in the series whose target cannot be loaded: its name runs through a regular file
+    (ENOTDIR).  Both drivers stop with an error and write nothing."""
+    w["files"][b"blocker"] = (b"a file, not a directory\n", 0o644)
+    text = b"--- /dev/null\n+++ b/blocker/new.txt\n@@ -0,0 +1 @@\n+x\n" if rng.random() < 0.5 else \
+        b"--- a/blocker/old.txt\n+++ b/blocker/old.txt\n@@ -1 +1 @@\n-x\n+y\n"
+    w["patches"][b"unloadable.patch"] = text
+    lines = [l for l in w["series"].split(b"\n") if l.strip()]
+    lines.insert(rng.randint(0, len(lines)), b"unloadable.patch")
+    w["series"] = b"\n".join(lines) + b"\n"
+    return w
+
+
 def add_links(w, prob=0.2):
     """in some workspaces one initial file is reached through a symbolic link: the file lives under store/ (a name
     no patch carries) and the tree has a link to it.  rapidquilt reads through the link and replaces the link by a
